@@ -116,9 +116,24 @@ def midtick_scenarios(rng, tier):
     return out
 
 
+def early_scenarios():
+    from .c07 import dev
+    out = []
+    for num, den in ([1, 1], [2, 1], [1, 2]):
+        for late, at in ((6, 3), (6, 4), (8, 5)):
+            out.append({"components": [dev("x"), dev("a", cb={"kind": "period", "p": 200_000_000 * num})], "speed": [num, den], "t0": 5_000_000_000,
+                        "n_ticks": 4, "start_delays": {"": late}, "stims": [{"step": at, "comp": "x"}]})
+    return out
+
+
 def run(tier, seed, drv):
     res = Result()
     rng = random.Random(seed)
+    for scn in early_scenarios():
+        run_ = run_scenario(scn, bus="sync")
+        res.case(SC.scn_key(scn), nontrivial=True)
+        res.count("early-interrupt-nonzero-t0")
+        SC.check_run(scn, run_, drv, res, monitors_on=("pacing", "tick_times", "linear_law"), corr=("ticker",), case_extra={"bus": "sync"})
     for scn in midtick_scenarios(rng, tier):
         run_ = run_scenario(scn, bus="sync")
         res.case(SC.scn_key(scn), nontrivial=True)
